@@ -218,3 +218,24 @@ def make_transformer_engine(root, seed, H=32, dim=16, heads=2, dff=32, enc=1, de
     with contextlib.redirect_stdout(io.StringIO()):
         e = TransformerEngineLineOCR(root + '/t.json', torch.device('cpu'))
     return e
+
+
+def make_parsenet_with_separators(path):
+    """1x1-conv TorchScript 'ParseNet': R -> baseline probability, G -> region-separator response, B -> ascender (x40) / descender (x16) heights"""
+    import torch
+
+    class StubSep(torch.nn.Module):
+        def __init__(self):
+            super().__init__()
+            self.conv = torch.nn.Conv2d(3, 5, kernel_size=1, bias=False)
+            w = torch.zeros(5, 3, 1, 1)
+            w[0, 2] = 40.0
+            w[1, 2] = 16.0
+            w[2, 0] = 1.0
+            w[4, 1] = 1.0
+            self.conv.weight.data = w
+
+        def forward(self, x):
+            return self.conv(x), x
+    torch.jit.save(torch.jit.script(StubSep().eval()), path + '.cpu')
+    return path
